@@ -417,6 +417,34 @@ func origin(v ssa.Value) ssa.Value {
 	return v
 }
 
+// throughSoleCallSite: if v is a parameter of a function with exactly one call site in the package,
+// return the argument passed there (one level of interprocedural value identity for extracted helpers).
+func (w *World) throughSoleCallSite(v ssa.Value) (ssa.Value, ssa.CallInstruction) {
+	p, ok := origin(v).(*ssa.Parameter)
+	if !ok {
+		return nil, nil
+	}
+	fn := p.Parent()
+	idx := -1
+	for i, q := range fn.Params {
+		if q == p {
+			idx = i
+		}
+	}
+	sites := w.callSitesOf(fn)
+	if idx < 0 || len(sites) != 1 {
+		return nil, nil
+	}
+	args := sites[0].Common().Args
+	if sites[0].Common().IsInvoke() {
+		idx-- // receiver is not in Args for invoke mode
+	}
+	if idx < 0 || idx >= len(args) {
+		return nil, nil
+	}
+	return args[idx], sites[0]
+}
+
 // desc renders a value as a position-independent expression (for identity comparison and evidence).
 func desc(v ssa.Value) string { return descDepth(v, 0) }
 
